@@ -43,6 +43,8 @@ type Worker struct {
 	input    chan *input
 	output   chan model.StepVector
 	doWork   Task
+	// err is the failure of the last task; it is written before the output is sent.
+	err error
 }
 
 type Task func(workerID int, arg float64, in model.StepVector) model.StepVector
@@ -72,9 +74,21 @@ func (w *Worker) start(done doneFunc, ctx context.Context) {
 				return
 			}
 			model.VerifYield("worker.work")
-			w.output <- w.doWork(w.workerID, task.arg, task.in)
+			w.output <- w.work(task)
 		}
 	}
+}
+
+// work runs the task; a panic is kept for GetOutput to report instead of
+// taking the process down (and leaving the consumer waiting for the output).
+func (w *Worker) work(task *input) (out model.StepVector) {
+	defer func() {
+		if e := recover(); e != nil {
+			w.err = model.PanicToError(e)
+			out = model.StepVector{}
+		}
+	}()
+	return w.doWork(w.workerID, task.arg, task.in)
 }
 
 func (w *Worker) Send(arg float64, in model.StepVector) error {
@@ -93,6 +107,10 @@ func (w *Worker) GetOutput() (model.StepVector, error) {
 	case <-w.ctx.Done():
 		return model.StepVector{}, w.ctx.Err()
 	default:
-		return <-w.output, nil
+		out := <-w.output
+		if w.err != nil {
+			return model.StepVector{}, w.err
+		}
+		return out, nil
 	}
 }
